@@ -237,11 +237,11 @@ Qed.
 (* ---------------------------------------------------------------- one defragmentation call *)
 
 Lemma dexec_L v run o :
-  VamInv c v -> LInv v -> def_min0 v -> drun_ok v run -> dop_ok v run o ->
+  VamInv c v -> VamGran.GV v -> LInv v -> def_min0 v -> drun_ok v run -> dop_ok v run o ->
   let '(v', run', r, dr) := dexec c v run o in
   match r with PANIC | STUCK => True | _ => LInv v' /\ def_min0 v' end.
 Proof.
-  intros HI HL H0 Hr Hok. pose proof (dexec_inv c v run o HI Hr Hok) as PS.
+  intros HI HV HL H0 Hr Hok. pose proof (dexec_inv c v run o HI HV Hr Hok) as PS.
   destruct o as [flags pool mb ma| |ds|]; cbn [dexec] in *.
   - pose proof (defrag_begin_inv c v flags pool mb ma HI) as P. pose proof (defrag_begin_lperm v flags pool mb ma) as PL.
     destruct (defrag_begin c v flags pool mb ma) as (v1 & r). cbn [fst] in PL. destruct P as (I1 & T1 & _).
@@ -251,7 +251,7 @@ Proof.
     destruct r as [rn|code| |]; cbn; auto.
   - destruct run as [rn|]; [|exact I]. unfold defrag_pass in *.
     pose proof (pass_loop_lperm (S (length (dr_ctxs rn))) v rn (Pass.pass_init (dr_max_bytes rn) (dr_max_allocs rn))) as PL.
-    destruct Hok as (Hidle & HG). pose proof (defrag_pass_inv c v rn HI Hr Hidle HG) as P. unfold defrag_pass in P.
+    pose proof Hok as Hidle. pose proof (defrag_pass_inv c v rn HI Hr Hidle HV) as P. unfold defrag_pass in P.
     destruct (pass_loop c _ v rn _) as ((v1 & rn') & r). cbn [fst] in PL.
     destruct r as [mvs|code| |]; cbn in *; auto; [|contradiction].
     destruct P as (I1 & _ & G1 & _). split; [|eapply def_min0_dmin; [exact H0|apply dmin_lperm; exact PL]].
@@ -268,17 +268,17 @@ Proof.
 Qed.
 
 Theorem dstep_L v run o f :
-  VamInv c v -> LInv v -> def_min0 v -> drun_ok v run -> dop_ok v run o ->
+  VamInv c v -> VamGran.GV v -> LInv v -> def_min0 v -> drun_ok v run -> dop_ok v run o ->
   let '(v', run', r, calls, dr) := dstep c v run o f in
   r <> RPanic -> r <> RStuck -> LInv v' /\ def_min0 v'.
 Proof.
-  intros HI HL H0 Hr Hok. unfold dstep.
+  intros HI HV HL H0 Hr Hok. unfold dstep.
   set (v0 := set_m v (clear_calls (set_fault (v_m v) f 0))).
   assert (I0 : VamInv c v0).
   { unfold v0, VamInv. apply VamInvU_mach_same; [exact HI|]. split; cbn; [apply mems_same_refl|lia]. }
   assert (Hr0 : drun_ok v0 run) by (destruct run as [rn|]; [apply run_ok_set_m; exact Hr|exact I]).
   assert (Hok0 : dop_ok v0 run o) by (destruct o; cbn in *; auto).
-  pose proof (dexec_L v0 run o I0 (LInv_set_m v _ HL) (def_min0_set_m v _ H0) Hr0 Hok0) as E.
+  pose proof (dexec_L v0 run o I0 (VamGran.GR_set_m v _ HV) (LInv_set_m v _ HL) (def_min0_set_m v _ H0) Hr0 Hok0) as E.
   destruct (dexec c v0 run o) as (((v1 & run1) & r) & dr).
   intros Hp Hs. destruct r as [[]|code| |]; cbn in Hp, Hs; try congruence; cbn in E; destruct E as (A & B);
     (split; [apply LInv_set_m; exact A|apply def_min0_set_m; exact B]).
@@ -304,7 +304,7 @@ Proof.
   - destruct IH as (HL & H0). destruct (reachD_inv c Hc v run (reachDL_reachD v run R)) as (HI & _).
     pose proof (step_L c Hc v o f HI HL H0 Hok Hp) as P. rewrite Hs in P. apply P; auto.
   - destruct IH as (HL & H0). destruct (reachD_inv c Hc v run (reachDL_reachD v run R)) as (HI & Hr).
-    pose proof (dstep_L v run o f HI HL H0 Hr Hok) as P. rewrite Hs in P. apply P; auto.
+    pose proof (dstep_L v run o f HI (reachD_gv c Hc v run (reachDL_reachD v run R)) HL H0 Hr Hok) as P. rewrite Hs in P. apply P; auto.
 Qed.
 
 (* C11 / C20 along histories with defragmentation *)
